@@ -86,6 +86,7 @@ structure DState where
   prods : Std.HashMap Nat Producer := {}
   sched : St := {}
   handles : List Nat := []     -- job handles in creation order
+  tm : TSt := {}
 
 /-- the scripted `random.uniform`: a deterministic function of the arguments and the call context,
 computed identically by the harness (`harness/common.py: scripted_uniform`) -/
@@ -227,6 +228,43 @@ def handle (d : DState) (line : String) : DState × List String :=
           | .create j .., none => if d.handles.contains j then d else { d with handles := d.handles ++ [j] }
           | _, _ => d
         ({ d with sched := s' }, schedOut d s' err)
+  | .atom "tm-reset" :: kind :: args =>
+      let k : MgrKind := match kind.str, args with
+        | "sequential", _ => .sequential
+        | "limseq", [n, p] => .limitingSeq n.nat! (match p.str with | "skip" => .skip | "skip_first" => .skipFirst | _ => .skipLast)
+        | "dedup", _ => .dedup
+        | "parallel", _ => .parallel
+        | "limpar", [n, p] => .limitingPar n.nat! (match p.str with | "skip" => .skip | "cancel_first" => .cancelFirst | _ => .cancelLast)
+        | _, _ => .sequential
+      ({ d with tm := { kind := k } }, [])
+  | .atom "tm" :: rest =>
+      let pairsOf (x : Sx) : List (Nat × Nat) := match x with
+        | .atom "-" => []
+        | .atom s => (s.splitOn ",").filterMap fun t => match t.splitOn ":" with
+            | [a, b] => match a.toNat?, b.toNat? with | some a, some b => some (a, b) | _, _ => none
+            | _ => none
+        | _ => []
+      let taskOf (c : Nat) : Option Nat := (List.range d.tm.tasks.length).find? fun t =>
+        (d.tm.task t).coro == c && (d.tm.task t).status != .done
+      let op : Option TOp := match rest with
+        | [.atom "submit", c, k] => some (.submit c.nat! k.nat!)
+        | [.atom "complete", c, f, ins, lis] =>
+            (taskOf c.nat!).map fun t => .complete t (f.int! ≠ 0) { inside := pairsOf ins, listener := pairsOf lis }
+        | [.atom "cancel", c] => (taskOf c.nat!).map TOp.cancel
+        | _ => none
+      match op with
+      | none => (d, ["notask"])
+      | some op =>
+        let s' := tstep { d.tm with log := [] } op
+        let evs := s'.log.reverse
+        let nm (e : TEv) : String := match e with
+          | .enter c => s!"enter {c}" | .exit c => s!"exit {c}" | .cancelled c => s!"cancelled {c}"
+          | .failed c => s!"failed {c}" | .closed c => s!"closed {c}"
+        let main := (evs.filter fun e => match e with | .closed _ => false | _ => true).map nm
+        let closed := ((evs.filterMap fun e => match e with | .closed c => some c | _ => none).toArray.qsort (· < ·)).toList
+        ({ d with tm := s' },
+          main ++ closed.map (fun c => s!"closed {c}") ++
+          [s!"state run={if s'.cur.isSome then 1 else 0} queue={s'.queue.length} tracked={s'.tracked.length} ready={s'.ready.length}"])
   | [.atom "dump"] =>
       let s := d.sched
       (d, [s!"queue{String.join (s.queue.map (fun j => s!" {j}"))}", s!"timer {optStr s.timer}", s!"enabled {s.enabled}"])
